@@ -21,6 +21,8 @@ def make_batches(cases, decl, tdecl="", per=120, params=None, system="system T;"
             if role in ("inv", "rate"):
                 l = {"id": "id%d" % len(locs), "name": "L%d" % len(locs)}
                 l["inv" if role == "inv" else "rate"] = c["text"]
+                if c.get("flag"):
+                    l[c["flag"]] = True
                 locs.append(l)
                 pmap["/nta/template[1]/location[%d]" % len(locs)] = c["id"]
             else:
@@ -106,6 +108,8 @@ class Placer:
         elif role in ("inv", "rate"):
             l = {"id": "id%d" % len(self.locs), "name": "L%d" % len(self.locs)}
             l["inv" if role == "inv" else "rate"] = text
+            if case.get("flag"):
+                l[case["flag"]] = True          # the label sits on an urgent / committed location
             self.locs.append(l)
             self.pmap[("/nta/template[1]/location[%d]" % len(self.locs), None)] = cid
         elif role == "prob":
